@@ -159,6 +159,21 @@ def run(cx):
 
     insert_under_lock(cx, fb)
 
+    # ---- R05.zero-seeded-before-publish ---------------------------------------------
+    sh = fb.one(r"intern::intern::InternTable::<Id, <Id as intern::InternId>::Intern>::shards$")
+    goi = [t for t in sh.calls() if term_calls(t, r"OnceCell::<T>::get_or_init$")]
+    other_pub = [t for t in sh.calls() if re.search(r"OnceCell::<T>::(set|try_insert|get_or_try_init)$", t.callee or "")]
+    seeders = [t for t in fb.calls_to(r"ShardedSet::<T, S>::unchecked_insert$") if "sharded_set" not in t.fn.file
+               and "::tests::" not in t.fn.id]
+    cx.floor("R05.zero-seeded unchecked_insert call sites", len(seeders), 1)
+    for t in seeders:
+        inside = t.fn.root == sh.id and t.fn.id != sh.id
+        cx.ob("R05.zero-seeded-before-publish", t.fn.id + "|seeded-inside-initializer",
+              inside and len(goi) == 1 and not other_pub,
+              "the distinguished zero element is inserted outside the OnceCell initializer (after the shard set is "
+              "visible to other threads): a thread that interns the zero value during first use gets a second id "
+              "for it", t.fn.loc(t.line))
+
     # ---- R05.one-shard-function ---------------------------------------------------
     idx_sites = []
     for h in fb.fns.values():
@@ -222,10 +237,28 @@ def run(cx):
         (op_const(o) or {}).get("v") == "1" for o in s.ops)]
     cx.ob("R05.serdes-tables", ser[0].id + "|one-index-per-value", len(inc) == 1 and len(plus1) >= 1,
           "the serializer must advance next_index exactly once per serialized Value", ser[0].loc())
+    # back-reference numbering is post-order on both sides: the serializer takes its index only after the
+    # value (and everything nested in it) has been serialized; the deserializer pushes after the value has
+    # been deserialized and interned
+    for h in sfns:
+        sts = stores_to_field(h, "next_index")
+        vals = [t for t in h.calls() if re.search(r"::serialize$", t.callee or t.declared or "") and "InternEnum" in (t.callee or t.declared or "")]
+        for x in sts:
+            nested = [t for t in vals if h.dominates(t.bb, x.bb)]
+            cx.ob("R05.serdes-tables", ser[0].id + "|index-taken-after-value-serialized", bool(nested),
+                  "the serializer reserves a back-reference index before the value is serialized (pre-order) while "
+                  "the deserializer numbers values after deserializing them (post-order): nested ids of the same "
+                  "type resolve to the wrong values", h.loc(x.line))
     pushes = [t for h in dfns for t in h.calls() if term_calls(t, r"vec::Vec::<T, A>::push$")]
+    for t in pushes:
+        h = t.fn
+        root = de[0]
+        interns = [c for c in root.calls() if term_calls(c, r"InternId::intern$")]
+        cx.ob("R05.serdes-tables", de[0].id + "|push-after-intern", len(interns) == 1,
+              "the deserializer must intern the value before recording its back-reference", de[0].loc())
     cx.ob("R05.serdes-tables", de[0].id + "|one-push-per-value", len(pushes) == 1,
           "the deserializer must push exactly one back-reference per deserialized Value", de[0].loc())
     s_tab = [t for h in sfns for t in h.calls() if term_calls(t, r"PerInternIdVec::<T>::for_id(_mut)?$")]
     d_tab = [t for h in dfns for t in h.calls() if term_calls(t, r"PerInternIdVec::<T>::for_id(_mut)?$")]
-    cx.ob("R05.serdes-tables", "per-type-table", len(s_tab) >= 2 and len(d_tab) >= 2,
+    cx.ob("R05.serdes-tables", "per-type-table", len(s_tab) >= 1 and len(d_tab) >= 1,
           "both sides must index their tables through PerInternIdVec::for_id{,_mut}::<Id>", ser[0].loc())
